@@ -17,7 +17,7 @@ look the key up under `bucketOf oldExp` and may leave the key behind in a clampe
 namespace RV.Cache
 open Gen.Cache
 
-theorem evictAll_em (s : State) (st : Store) (ks : List Hash) : (evictAll s st ks).em = s.em := by
+theorem evictAll_em_t (s : State) (st : Store) (ks : List Hash) : (evictAll s st ks).em = s.em := by
   induction ks generalizing s with
   | nil => rfl
   | cons k rest ih => unfold evictAll; split <;> simp [ih]
@@ -81,7 +81,7 @@ theorem clientStep_se {cfg : Cfg} {s s' : State} {t : Tid} {ch : Choice}
         · rename_i hord
           simp only [Option.some.injEq] at hr; subst hr
           exact .clr closing k ks hpc (by omega) (by simpa using hord) (by simp [evictAll_store])
-            (by simp [evictAll_em]) (by simp)
+            (by simp [evictAll_em_t]) (by simp)
     · simp at hr
   case clrEm =>
     intro closing hpc _
@@ -995,7 +995,7 @@ theorem regInv_init (cfg : Cfg) (now0 : Time) : RegInv now0 (init cfg now0) :=
   ⟨Int.le_refl _, fun _ => ⟨⟨now0, Int.le_refl _, Int.le_refl _, rfl⟩, fun k e hl _ => by simp [init] at hl⟩⟩
 
 /-- induction along a run from a fixed initial state -/
-theorem run_induction {cfg : Cfg} {P : State → Prop} {s0 : State} (hr0 : Reach cfg s0) (h0 : P s0)
+theorem run_induction_t {cfg : Cfg} {P : State → Prop} {s0 : State} (hr0 : Reach cfg s0) (h0 : P s0)
     (hstep : ∀ s a s', Reach cfg s → P s → step cfg s a = some s' → P s') :
     ∀ (acts : List Action) (s : State), run cfg s0 acts = some s → P s := by
   intro acts
@@ -1012,7 +1012,7 @@ theorem run_induction {cfg : Cfg} {P : State → Prop} {s0 : State} (hr0 : Reach
 
 theorem regInv_run {cfg : Cfg} {now0 : Time} {acts : List Action} {s : State} (h0 : TimeOk now0)
     (hrun : run cfg (init cfg now0) acts = some s) : RegInv now0 s :=
-  run_induction (Reach.of_init cfg now0) (regInv_init cfg now0) (fun _ _ _ hr hp hs => regInv_step h0 hr hp hs) acts s hrun
+  run_induction_t (Reach.of_init cfg now0) (regInv_init cfg now0) (fun _ _ _ hr hp hs => regInv_step h0 hr hp hs) acts s hrun
 
 /-- a bucket covered by a sweep at `now` cannot hold an expiration after `now` -/
 theorem lost_impossible {lo : Time} {s : State} {e : Entry} (hlo : TimeOk lo) (hclk : TimeOk s.clock)
